@@ -33,7 +33,7 @@ func init() {
 		ID: "C19",
 		Explanation: `R19.1 fork-site access sets in ExtractZip: the worker goroutines (started in a loop, hence concurrent with each other) and the parent between fork and join share no location with a write and disjoint locksets (entry counters, progress, warned flag); ` +
 			`R19.2 the resume file (a pseudo-variable for the path in settings.ResumeFrom) is written by the workers only under a common lock, i.e. it has one ordered writer; ` +
-			`R19.3 every worker sends exactly one result on every path and the parent collects them. ` +
+			`R19.3 every worker sends exactly one result on every path and the parent collects them; R19.4 the set of finished entries behind the marker is keyed by the entry index itself, not by a reduction of it. ` +
 			`NOT decided: tree equality, tar, symlink/dir recreation, and whether the marker value is a contiguous high-water mark (value-level; a lock is necessary, not sufficient).`,
 		Assumptions: []string{
 			"state.Consumer and the OnEntryDone / OnUncompressedSizeKnown callbacks are assumed internally synchronised",
@@ -628,6 +628,7 @@ func runC19(c *core.Ctx) {
 	c.Rule("R19.1", "fork-site conflicts in ExtractZip")
 	c.Rule("R19.2", "resume marker has one ordered writer")
 	c.Rule("R19.3", "every worker reports exactly once; the parent collects")
+	c.Rule("R19.4", "the done-set behind the resume marker is keyed by the entry index itself (no modulo/shift/mask)")
 	ez := c.P.Fn("archiver", "ExtractZip")
 	if ez == nil {
 		c.Missing("R19.1", "archiver.ExtractZip", "not found")
@@ -667,6 +668,72 @@ func runC19(c *core.Ctx) {
 	c.Check(nFile > 0 && len(locks) > 0, "R19.2", core.FnName(ez), "resume file written by the workers under one common lock", ez.Pos(),
 		fmt.Sprintf("%d write sites, common lockset %v", nFile, keysOf(locks)),
 		fmt.Sprintf("the resume file is written from the worker goroutines at %d sites with no lock common to all of them: two workers can write it at once and the last writer is not the furthest-advanced one", nFile))
+	// R19.4: the structure remembering which entries are done is keyed by the entry index itself
+	var progress *ssa.Function
+	for _, f := range core.WithAnons(ez) {
+		if f != ez && len(core.Calls(f, false, "os.WriteFile")) > 0 {
+			progress = f
+		}
+	}
+	if progress == nil {
+		c.Bad("R19.4", core.FnName(ez), "resume-file writer", ez.Pos(), "no function literal writes the resume file")
+	} else {
+		nKeys := 0
+		core.Instrs(progress, func(in ssa.Instruction) {
+			var key ssa.Value
+			switch x := in.(type) {
+			case *ssa.MapUpdate:
+				key = x.Key
+			case *ssa.Lookup:
+				if _, isMap := x.X.Type().Underlying().(*types.Map); isMap {
+					key = x.Index
+				}
+			case *ssa.IndexAddr:
+				if a, ok := core.CellRoot(x.X).(*ssa.Alloc); ok && (a.Comment == "varargs" || a.Comment == "") {
+					return
+				}
+				for _, o := range core.Origins(x.X) {
+					if a, ok := o.(*ssa.Alloc); ok && a.Comment == "varargs" {
+						return
+					}
+				}
+				key = x.Index
+			}
+			if key == nil || !isIndexInt(key.Type()) {
+				return
+			}
+			if _, isC := core.ConstInt(key); isC {
+				return
+			}
+			nKeys++
+			lossy := ""
+			var walk func(v ssa.Value, d int)
+			walk = func(v ssa.Value, d int) {
+				if d > 6 || lossy != "" {
+					return
+				}
+				switch y := core.StripConv(v).(type) {
+				case *ssa.BinOp:
+					switch y.Op {
+					case token.REM, token.QUO, token.AND, token.SHR, token.AND_NOT:
+						lossy = core.Describe(y)
+						return
+					}
+					walk(y.X, d+1)
+					walk(y.Y, d+1)
+				case *ssa.Phi:
+					for _, e := range y.Edges {
+						walk(e, d+1)
+					}
+				}
+			}
+			walk(key, 0)
+			c.Check(lossy == "", "R19.4", core.FnName(progress), "done-set key "+core.Describe(key)+" identifies the entry", core.InstrPos(in),
+				"the key is an entry index (possibly ± a constant), so distinct entries never share a slot",
+				"the structure that remembers finished entries is keyed by "+lossy+", which maps different entries to the same slot: a finished later entry can stand for an unfinished earlier one and the resume marker advances past it")
+		})
+		c.Floor("R19.4", "done-set accesses in the resume-file writer", nKeys, 2)
+	}
 	// R19.3
 	var errsChan ssa.Value
 	core.Instrs(worker.fn, func(in ssa.Instruction) {
